@@ -37,6 +37,9 @@ struct SubInfo {
     delivered: usize,
     count_fuzzy: bool,
     live: bool,
+    /// C14: something that makes a further poll able to return an item / the end happened while the
+    /// last answer was Pending; the waker of that poll must fire before the operation is over
+    due: bool,
 }
 
 struct World {
@@ -50,6 +53,7 @@ struct World {
     fin: Option<Vec<u32>>,
     cap: usize,
     out: Vec<String>,
+    wakedue_ok: bool,
 }
 
 /// the plain-vector specification of the mutators: (new contents, return text, effective?);
@@ -222,6 +226,7 @@ impl World {
     /// wake bookkeeping after an operation: which subscribers' wakers fired
     fn woken_suffix(&mut self) -> String {
         let mut ids = vec![];
+        let mut due_ok = true;
         for (k, s) in self.subs.iter_mut().enumerate() {
             let n = s.cw.0.load(AO::SeqCst);
             if n > s.seen_wakes {
@@ -229,6 +234,15 @@ impl World {
                 s.woken = true;
                 ids.push(k.to_string());
             }
+            if s.due {
+                s.due = false;
+                if s.live && s.last_pending && !s.woken {
+                    due_ok = false;
+                }
+            }
+        }
+        if !due_ok {
+            self.wakedue_ok = false;
         }
         if ids.is_empty() {
             String::new()
@@ -248,6 +262,9 @@ impl World {
                 s.states.push(st.clone());
                 s.sent_since_pending += 1;
                 s.expected += ndiffs;
+                if s.last_pending {
+                    s.due = true;
+                }
             }
         }
     }
@@ -696,6 +713,7 @@ pub fn run_line(line: &str, out: &mut String) {
         fin: None,
         cap,
         out: vec![],
+        wakedue_ok: true,
     };
     let mut it = ops.iter();
     // From<Vector<T>>: a history on the default capacity that starts with an append may be built
@@ -839,6 +857,7 @@ pub fn run_line(line: &str, out: &mut String) {
                 delivered: 0,
                 count_fuzzy: false,
                 live: true,
+                due: false,
             });
         } else if name == "get" {
             let o = ob.as_ref().unwrap();
@@ -848,6 +867,11 @@ pub fn run_line(line: &str, out: &mut String) {
             run_txn(ob.as_mut().unwrap(), &mut w, &mut it);
         } else if name == "dropvec" {
             w.fin = Some(w.shadow.clone());
+            for s in w.subs.iter_mut() {
+                if s.live && s.last_pending {
+                    s.due = true;
+                }
+            }
             // two ways for the vector to go away: dropped, or consumed by into_inner()
             let mut plain_bad = false;
             if w.out.len() % 2 == 0 {
@@ -864,6 +888,31 @@ pub fn run_line(line: &str, out: &mut String) {
         // wakes caused by polls themselves are recorded but not printed
         let _ = w.woken_suffix();
     }
+    // C14, second sentence ("never ready again without that waker having been woken"): at the end of
+    // the history a stream whose last answer was Pending and whose waker has not fired since must
+    // still be Pending
+    let mut stuck_ok = true;
+    for s in w.subs.iter_mut() {
+        if s.live && s.last_pending && !s.woken && s.cw.0.load(AO::SeqCst) == s.seen_wakes {
+            if let Some(stream) = s.stream.as_mut() {
+                let waker = s.waker.clone();
+                let mut cx = Context::from_waker(&waker);
+                let r = catch(|| match stream {
+                    AnyStream::Plain(st) => st.as_mut().poll_next(&mut cx).is_pending(),
+                    AnyStream::Batched(st) => st.as_mut().poll_next(&mut cx).is_pending(),
+                });
+                if r != Some(true) {
+                    stuck_ok = false;
+                }
+            }
+        }
+    }
     out.push_str(&w.out.join(" ; "));
+    if !w.wakedue_ok {
+        out.push_str(" ok:wakedue=0");
+    }
+    if !stuck_ok {
+        out.push_str(" ok:stuck=0");
+    }
     out.push('\n');
 }
